@@ -150,6 +150,7 @@ def _run_path(f: Func, p: SymPath, st0, flags) -> Optional[Tuple[tuple, List[str
             continue
         if isinstance(s, ast.Assign):
             _check_loads(s.value, locals_def, params, problems)
+            _check_pointer_reads(s.value, state, problems)
             for t in s.targets:
                 c = attr_chain(t)
                 if isinstance(t, ast.Name):
@@ -188,6 +189,24 @@ def _run_path(f: Func, p: SymPath, st0, flags) -> Optional[Tuple[tuple, List[str
     return state, problems, p.describe()
 
 
+def _check_pointer_reads(e: ast.AST, state, problems: List[str]):
+    """a use of the pointer tables' *value* (anything but an `is [not] None` test) while the abstract state says
+    they are None fails at run time (zip(None) / None[i])"""
+    if state[2] != "none":
+        return
+    tested = set()
+    for n in ast.walk(e):
+        if isinstance(n, ast.Compare) and len(n.ops) == 1 and isinstance(n.ops[0], (ast.Is, ast.IsNot)) \
+                and attr_chain(n.left) == ("self", "_group_key_pointers"):
+            tested.add(id(n.left))
+    for n in ast.walk(e):
+        if isinstance(n, ast.Attribute) and isinstance(n.ctx, ast.Load) and id(n) not in tested \
+                and attr_chain(n) == ("self", "_group_key_pointers"):
+            msg = "uses the pointer tables after they were reset to None on this path (TypeError)"
+            if msg not in problems:
+                problems.append(msg)
+
+
 def _check_loads(e: ast.AST, locals_def, params, problems: List[str]):
     bound_inner: Set[str] = set()
     for n in ast.walk(e):
@@ -210,7 +229,7 @@ def unify_relation(repo: Repo) -> Dict[Tuple[tuple, bool], Set[tuple]]:
     f = repo.func(CORE, "GroupBy._unify_group_key_chunks")
     rel: Dict[Tuple[tuple, bool], Set[tuple]] = {}
     for o in interpret_unify(f):
-        if o.post is not None and not any("unassigned" in p or "raises" in p for p in o.problems):
+        if o.post is not None and not any("unassigned" in p or "raises" in p or "TypeError" in p for p in o.problems):
             rel.setdefault((o.state, o.flag), set()).add(o.post)
     return rel
 
